@@ -229,6 +229,19 @@ let handle (line : string) : string =
       let a = mk l1 p1 f1 and b = mk l2 p2 f2 in
       let sign z = match z with Z0 -> "0" | Zpos _ -> "+" | Zneg _ -> "-" in
       Printf.sprintf "%d %s %d" (if left_eq a b then 1 else 0) (sign (left_compare a b)) (if left_lt a b then 1 else 0)
+  | "IMG" :: kd :: cfg :: [] ->
+      (* the bytes of the search structure of a `trie` (kd = T) / `trie -a <cfg>` (kd = A) binary file, from the loaded trie table
+         (coq/C03/TrieImage.v); preceded by the executable walk check over that memory *)
+      (match !tt with
+       | LoadError _ -> "not-loaded"
+       | Loaded t ->
+           let pz = List.filter_map (fun g -> if g.g_pz then Some g.g_key else None) !unigrams in
+           let arr = (kd = "A") and c = z_of_hex cfg and n = nat_of_int !order in
+           let ok = trie_walk_check arr c n t pz in
+           let bytes = trie_image arr c n t pz in
+           let buf = Buffer.create 4096 in
+           List.iter (fun b -> Buffer.add_string buf (Printf.sprintf "%02x" (int_of_string ("0x" ^ hex_of_z b)))) bytes;
+           (if ok then "walk=1 " else "walk=0 ") ^ Buffer.contents buf)
   | "DUMP" :: kd :: k :: [] ->
       (match (if kd = "P" then !tp else if kd = "R" then !tr else !tt) with
        | LoadError _ -> "not-loaded"
